@@ -56,16 +56,17 @@ def gen_inflight_script(rng):
     """The dropped write is STILL RUNNING (its append is held back for 400 ms) while the client goes on: a write is
     acknowledged behind it, another one fails, the blob may be closed -- and only then do the bytes of the dropped write
     land. All-or-nothing for the dropped write, everything acknowledged stays readable, every blob parses."""
-    g = Gen(rng, queries=(), maint=0.2, restart=0.0, deletes=0.1, bg=0.0, nops=rng.randrange(2, 7), dup=1, metas=False, runtime='ct')
+    rt = rng.choice(['ct', 'ct', 'mt'])      # mt: only writes above 80 KiB go to the blocking pool, small ones are written in place
+    g = Gen(rng, queries=(), maint=0.2, restart=0.0, deletes=0.1, bg=0.0, nops=rng.randrange(2, 7), dup=1, metas=False, runtime=rt)
     L = g.build().strip().split('\n')
     qs = ['R %s' % k for k in g.keys]
-    if rng.random() < 0.4:
+    if rng.random() < (0.4 if rt == 'ct' else 0.8):
         L += ['close', 'open']      # the active blob is re-opened in append mode: bytes land in completion order
     L += qs
     key = rng.choice(g.keys)
     L.append('create_active')       # the faults of this stream are meant for record appends, not for the creation of a blob
     L.append('fail append .blob 0 delay:400')
-    L.append('cancel 2 W %s %d - %d 9001' % (key, rng.choice([5, 7, 9, 12]), rng.choice([5, 5000, 100000])))
+    L.append('cancel 2 W %s %d - %d 9001' % (key, rng.choice([5, 7, 9, 12]), rng.choice([5, 5000, 100000]) if rt == 'ct' else 100000))
     seed = 9100
     for _ in range(rng.randrange(1, 3)):
         x = rng.random()
